@@ -274,7 +274,9 @@ def mul_pair(rng, tier):
 
 
 def _mul_pair(rng, tier):
-    k = rng.below(12)
+    k = rng.below(13)
+    if k == 12:
+        k = 6
     if k == 0:
         return gm(rng, size(rng, tier)), gm(rng, size(rng, tier, big=False))
     if k == 1:
@@ -302,7 +304,9 @@ def _mul_pair(rng, tier):
     if k == 6:
         # double-word right operand: power of two, one word, full double word
         a = gm(rng, rng.choice([3, 4, 5, 6, 7, 8, 25, 31]))
-        d = rng.choice([0, 1, 2, 1 << rng.below(128), rng.bits(64) | 1, MASK, MASK + 1, MASK + 2, rng.bits(128) | (1 << 127) | 1, (1 << 128) - 1, (1 << 64) | 1])
+        # every power of two below a word takes the shl_in_place shortcut of mul_large_dword with its own shift count
+        d = rng.choice([0, 1, 2, 1 << rng.below(2 * W), 1 << rng.below(W), 1 << rng.below(W), 1 << rng.below(8), 1 << rng.below(8), 1 << (W - 1),
+                        rng.bits(W) | 1, MASK, MASK + 1, MASK + 2, rng.bits(2 * W) | (1 << (2 * W - 1)) | 1, (1 << (2 * W)) - 1, (1 << W) | 1])
         return a, d
     if k == 7:
         # both at most two words: mul_dword and its spilled variant
